@@ -595,6 +595,14 @@ fn cram_roundtrip(tier: &str) -> Result<String, String> {
     push(&mut small, "t.del2", 147, "sq0", 410, 40, "10M5D10M", "=", 400, -35, &format!("{}{}", rbases(0, 410, 10), rbases(0, 425, 10)), "");
     push(&mut small, "t.ins", 99, "sq0", 500, 40, "20M", "=", 505, 20, &rbases(0, 500, 20), "");
     push(&mut small, "t.ins", 147, "sq0", 505, 40, "3S5M2I10M", "=", 500, -20, &format!("TTT{}GG{}", rbases(0, 505, 5), rbases(0, 510, 10)), "");
+    // a record without a name (it reads back with a name the reader generates: only the OTHER names are compared), and records with bases
+    // but no quality scores, mapped and unmapped, between records that have them (F66, F67)
+    push(&mut small, "*", 0, "sq0", 700, 30, "20M", "*", 0, 0, &rbases(0, 700, 20), "");
+    push(&mut small, "n.after", 0, "sq0", 710, 30, "20M", "*", 0, 0, &rbases(0, 710, 20), "");
+    small.push(format!("noq.1\t0\tsq0\t720\t30\t20M\t*\t0\t0\t{}\t*\n", mutate(&rbases(0, 720, 20), 4, 'A')));
+    push(&mut small, "q.after", 0, "sq0", 730, 30, "20M", "*", 0, 0, &rbases(0, 730, 20), "");
+    small.push("noq.2\t4\t*\t0\t0\t*\t*\t0\t0\tACGTNACGTN\t*\n".to_string());
+    push(&mut small, "q.last", 4, "*", 0, 0, "*", "*", 0, 0, "GATTACAGATTACA", "");
     // ---- a large single-reference-per-slice set: 10240 on sq0, 10240 on sq1, unmapped tail ----
     let mut big: Vec<String> = Vec::new();
     let nbig = 10240usize;
@@ -610,7 +618,7 @@ fn cram_roundtrip(tier: &str) -> Result<String, String> {
     // ---- comparison of a record read back with the one written ----
     let diff = |a: &sam::alignment::RecordBuf, b: &sam::alignment::RecordBuf| -> Vec<&'static str> {
         let mut d = Vec::new();
-        if a.name() != b.name() { d.push("name"); } if a.flags() != b.flags() { d.push("flags"); } if a.reference_sequence_id() != b.reference_sequence_id() { d.push("reference"); }
+        if a.name().is_some() && a.name() != b.name() { d.push("name"); } /* a nameless record reads back with a generated name (CRAM) */ if a.flags() != b.flags() { d.push("flags"); } if a.reference_sequence_id() != b.reference_sequence_id() { d.push("reference"); }
         if a.alignment_start() != b.alignment_start() { d.push("position"); } if a.mapping_quality() != b.mapping_quality() && !a.flags().is_unmapped() { d.push("mapq"); }   // CRAM stores no mapping quality for unmapped reads
         if a.cigar() != b.cigar() { d.push("cigar"); }
         if a.mate_reference_sequence_id() != b.mate_reference_sequence_id() || a.mate_alignment_start() != b.mate_alignment_start() { d.push("mate position"); } if a.template_length() != b.template_length() { d.push("template length"); }
@@ -643,6 +651,7 @@ fn cram_roundtrip(tier: &str) -> Result<String, String> {
         ("name tokenizer on names", nm, Encoder::NameTokenizer), ("fqzcomp on quality scores", qs, Encoder::Fqzcomp), ("gzip on names", nm, Encoder::Gzip(Default::default())), ("bzip2 on quality scores", qs, Encoder::Bzip2(Default::default())), ("lzma on names", nm, Encoder::Lzma(6))] {
         configs.push((n.into(), true, Some(MapBuilder::default().set_data_series_encoder(ds, Some(e)).build())));
     }
+    configs.push(("rANS Nx16 o0 as the default encoder".into(), true, Some(MapBuilder::default().set_default_encoder(Some(Encoder::RansNx16(rans_nx16::Flags::empty()))).build())));
     static PANIC_LOC: std::sync::Mutex<String> = std::sync::Mutex::new(String::new());
     std::panic::set_hook(Box::new(|info| { if let Some(l) = info.location() { let f = l.file(); let f = match f.find("/noodles-") { Some(i) => &f[i + 1..], None => f }; *PANIC_LOC.lock().unwrap() = format!("{}:{}", f, l.line()); } }));
     let mut cases = 0u64;
@@ -659,6 +668,10 @@ fn cram_roundtrip(tier: &str) -> Result<String, String> {
                 let back = read(&data).map_err(|e| format!("the reader fails on the writer's output ({e})"))?;
                 if back.len() != recs.len() { return Err(format!("{} records read back, {} written", back.len(), recs.len())); }
                 // every differing record is its own finding (up to 8 per configuration), so that a known one does not hide another
+                // the file definition's version against the compression methods of its blocks (independent walk): methods 5..8 (rANS Nx16, adaptive
+                // arithmetic coder, fqzcomp, name tokenizer) exist from CRAM 3.1 on
+                match crate::truncation::cram_block_methods(&data) { None => return Err("an independent walk of the written file's containers and blocks fails".into()),
+                    Some(ms) => { if let Some(m) = ms.iter().find(|&&m| m >= 5) { if data[4..6] != [3, 1] { return Err(format!("the file is labelled CRAM {}.{} and holds a block with compression method {m}, which exists from 3.1 on", data[4], data[5])); } } } }
                 for (i, (a, b)) in recs.iter().zip(back.iter()).enumerate() { let d = diff(a, b); if !d.is_empty() && diffs.len() < 8 { diffs.push(format!("record {i} ({:?}) reads back different in: {}", a.name().map(|n| n.to_string()), d.join(", "))); } }
                 Ok(data)
             }));
